@@ -39,7 +39,7 @@ META = dict(
 
 def tasks(tier):
     q = tier == "quick"
-    t = loop.loop_tasks([dict(policy=p, cons=c) for p, c in (("DualNorm", ["eq0"]), ("ObjectiveFilter", ["ge"]), ("Constant", []))], 2 if q else 3) + loop.loop_tasks([dict(policy="DualNorm", cons=["eq0"], vars=["boxed", "lower"])], 2)
+    t = loop.loop_tasks([dict(policy=p, cons=c) for p, c in (("DualNorm", ["eq0"]), ("ObjectiveFilter", ["ge"]), ("Constant", []))], 2 if q else 3) + loop.loop_tasks([dict(policy="DualNorm", cons=["eq0"], vars=["boxed", "lower"]), dict(policy="DualNorm", cons=["ranged"], scaling=dict(vw=[2], cw=[-1], ow=1))], 2)
     o = dict(nra=True, timeout_ms=60000)
     if q:
         tr = [(["boxed"], ["ge"], 1, "coo"), (["free", "lower"], ["eqb"], 1, "csr"), (["upper", "fixed"], ["ranged"], 0, "csc"), (["boxed"], ["le"], 0, "coo"), (["lower"], ["eq0"], 1, "coo"), (["boxed", "boxed"], [], 1, "coo")]
